@@ -1,6 +1,6 @@
 (* C18 — extraction to a path delivers exact bytes; failed checks leave nothing behind.
    Arbitrary tree [f] (all damage classes), arbitrary destination state, arbitrary [hash]. *)
-From CC Require Import Bytes Codec Utf8 Lines Json Sri Record Fs Prog Api BytesP FsP ProgP ReadP.
+From CC Require Import Bytes Codec Utf8 Lines Json Sri Record Fs Prog Api BytesP FsP ProgP ReadP WriteP CommitP RemoveP Crash CrashP CrashIdxP KeepP JsonP RecCodecP MetaP HistP.
 
 Section C18.
 Variable hash : algo -> bytes -> bytes.
@@ -50,6 +50,23 @@ Theorem C18_missing_content f x checked i dst cp :
   run (extract_hash hash x checked i dst) f = (Err EIoErr, f).
 Proof. exact (extract_missing_content hash f x checked i dst cp). Qed.
 
+(* the positive direction, after any history (HistP.v): a checked copy of a key whose content is stored succeeds, returns
+   the length, and leaves exactly the last data written under the key at the destination; a key the history's map does not
+   hold is "not found" and nothing is touched *)
+Theorem C18_copy_after_history (h : list cop) k e :
+  HashLen hash ->
+  forallb (c_ok hash) h = true -> NoColl hash (c_all (fold_left (c_step hash) h cspec0)) ->
+  let f := fold_left (c_run hash) h [] in let s := fold_left (c_step hash) h cspec0 in
+  lookup f (Ext e) <> Some Dir ->
+  match c_map s k with
+  | Some (a, d) => memb (a, d) (c_stored s) = true ->
+                   run (extract hash XCopy true k (Ext e)) f = (Ok (lenN d), update f (Ext e) (File d))
+  | None => run (extract hash XCopy true k (Ext e)) f = (Err ENotFound, f)
+  end.
+Proof.
+  intros HL Hok Hnc f s Hd. exact (cinv_copy hash HL f s k e (chistory_refines hash HL h [] cspec0 (cinv_empty hash) Hok Hnc) Hd).
+Qed.
+
 End C18.
 
 Check (C18_checked_fail_leaves_nothing : forall hash f x i dst,
@@ -74,3 +91,4 @@ Print Assumptions C18_extract_checked_exact.
 Print Assumptions C18_checked_fail_leaves_nothing.
 Print Assumptions C18_missing_key.
 Print Assumptions C18_missing_content.
+Print Assumptions C18_copy_after_history.
